@@ -136,3 +136,10 @@ fn lookup_props(lookup: Lookup) -> u32 {
     }
     props
 }
+
+/// Verification hooks (compiled only with `--cfg rb_verif`).
+#[cfg(rb_verif)]
+#[allow(unused_imports, dead_code, missing_docs)]
+pub mod verif_hooks {
+    use super::*;
+}
